@@ -163,28 +163,33 @@ theorem xrep_id (pers : Nat → Bool) (j : Nat) (hj : j < 65536) :
   exact @unpack_pack [.H] [.int j] (leBytes 2 j) (by rfl)
     (by simp [pack, packOne, packUnsigned, hj, bind, Except.bind, pure, Except.pure])
 
+theorem xonPacket_inactive (x : ExtF) (chan : Nat) (data : Bytes) (h : x.active = false) : x.onPacket chan data = .ok x := by
+  simp [ExtF.onPacket, h]
+
 theorem xonPacket_other (x : ExtF) (chan : Nat) (data : Bytes) (h : chan ≠ 3) : x.onPacket chan data = .ok x := by
   have : chan ≠ Gen.C03.miscChannel := h
   simp [ExtF.onPacket, this]
 
 theorem xonPacket_stale (x : ExtF) (pers : Nat → Bool) (j : Nat) (hj : j < 65536) (h : x.reqParam ≠ some j) :
     x.onPacket 3 (xrep pers j) = .ok x := by
-  unfold ExtF.onPacket
-  have : ¬ (3 ≠ Gen.C03.miscChannel) := by decide
-  simp only [this, if_false, xrep_id pers j hj]
-  simp [h]
+  cases ha : x.active
+  · exact xonPacket_inactive x _ _ ha
+  · unfold ExtF.onPacket
+    have : ¬ (3 ≠ Gen.C03.miscChannel) := by decide
+    simp only [ha, not_true_eq_false, this, if_false, xrep_id pers j hj]
+    simp [h]
 
 theorem xonPacket_awaited (x : ExtF) (pers : Nat → Bool) (j : Nat) (hj : j < 65536) (h : x.reqParam = some j)
-    (e : Elem) (he : x.toc.byId j = some e) :
+    (ha : x.active = true) (e : Elem) (he : x.toc.byId j = some e) :
     x.onPacket 3 (xrep pers j) =
       .ok (if x.count - 1 = 0 then
              { x with toc := if pers j then x.toc.markPersistent j else x.toc, count := x.count - 1, done := x.done + 1,
-                      queue := [], reqParam := none, locked := false }
+                      queue := [], reqParam := none, locked := false, active := false }
            else { x with toc := if pers j then x.toc.markPersistent j else x.toc, count := x.count - 1,
                          reqParam := none, locked := false }) := by
   unfold ExtF.onPacket
   have : ¬ (3 ≠ Gen.C03.miscChannel) := by decide
-  simp only [this, if_false, xrep_id pers j hj]
+  simp only [ha, not_true_eq_false, this, if_false, xrep_id pers j hj]
   have hd : (xrep pers j).drop 3 = [if pers j then 1 else 0] := rfl
   simp only [Int.toNat_natCast, h, if_true, hd]
   cases hp : pers j
@@ -204,12 +209,14 @@ inductive XInv (E : List Nat) (toc0 : Toc) (pers : Nat → Bool) : XSys → Prop
   | idle (s : XSys) (k : Nat) : k ≤ E.length → s.x.toc = toc0.mapElems (markIf (Pk E pers k)) →
       s.x.count = (E.length : Int) - (k : Int) → s.x.done = (if k = E.length then 1 else 0) →
       (∀ p ∈ s.pool, ∃ j ∈ E.take k, p = xrep pers j) →
-      s.x.reqParam = none → s.x.locked = false → s.x.queue = E.drop k → XInv E toc0 pers s
+      s.x.reqParam = none → s.x.locked = false → s.x.queue = E.drop k →
+      s.x.active = decide (k ≠ E.length) → XInv E toc0 pers s
   | busy (s : XSys) (k : Nat) (hk : k < E.length) : s.x.toc = toc0.mapElems (markIf (Pk E pers k)) →
       s.x.count = (E.length : Int) - (k : Int) → s.x.done = 0 →
       (∀ p ∈ s.pool, ∃ j ∈ E.take (k + 1), p = xrep pers j) →
       s.x.reqParam = some E[k] → s.x.locked = true → s.x.queue = E.drop (k + 1) →
-      xrep pers E[k] ∈ s.pool → XInv E toc0 pers s
+      xrep pers E[k] ∈ s.pool → s.x.active = true → XInv E toc0 pers s
+  | aborted (s : XSys) : s.x.active = false → s.x.done = 0 → s.x.queue = [] → XInv E toc0 pers s
 
 theorem Pk_succ (E : List Nat) (pers : Nat → Bool) (k : Nat) (hk : k < E.length) (i : Nat) :
     Pk E pers (k + 1) i = (Pk E pers k i || (i == E[k] && pers E[k])) := by
@@ -245,7 +252,13 @@ theorem xstep_inv (s : XSys) (hi : XInv E toc0 pers s) (c : XChoice) : XInv E to
   | worker =>
     simp only [XSys.step]
     cases hi with
-    | idle k hk htoc hcount hdone hpool hreq hlock hq =>
+    | aborted hact hdone hq =>
+      have hw : s.x.worker = none := by
+        unfold ExtF.worker
+        rw [hq]
+      rw [hw]
+      exact XInv.aborted _ hact hdone hq
+    | idle k hk htoc hcount hdone hpool hreq hlock hq hact =>
       by_cases hlt : k < E.length
       · have hdrop : E.drop k = E[k] :: E.drop (k + 1) := List.drop_eq_getElem_cons hlt
         have hw : s.x.worker = some ({ s.x with queue := E.drop (k + 1), locked := true, reqParam := some E[k] }, xreq E[k]) := by
@@ -253,7 +266,8 @@ theorem xstep_inv (s : XSys) (hi : XInv E toc0 pers s) (c : XChoice) : XInv E to
           rw [hq, hdrop, hlock]
           simp only [extRequest_eq E[k] (hE _ (List.getElem_mem hlt))]
         rw [hw]
-        refine XInv.busy _ k hlt htoc hcount (by simp [hdone]; omega) ?_ rfl rfl rfl ?_
+        have hact' : s.x.active = true := by rw [hact]; simp; omega
+        refine XInv.busy _ k hlt htoc hcount (by simp [hdone]; omega) ?_ rfl rfl rfl ?_ hact'
         · intro p hp
           simp only [extReply_xreq pers E[k] (hE _ (List.getElem_mem hlt)), Option.toList_some, List.mem_append,
             List.mem_singleton] at hp
@@ -270,27 +284,51 @@ theorem xstep_inv (s : XSys) (hi : XInv E toc0 pers s) (c : XChoice) : XInv E to
           unfold ExtF.worker
           rw [hq, hke, List.drop_length]
         rw [hw]
-        exact XInv.idle _ k hk htoc hcount hdone hpool hreq hlock hq
-    | busy k hk htoc hcount hdone hpool hreq hlock hq hin =>
+        exact XInv.idle _ k hk htoc hcount hdone hpool hreq hlock hq hact
+    | busy k hk htoc hcount hdone hpool hreq hlock hq hin hact =>
       have hw : s.x.worker = none := by
         unfold ExtF.worker
         rw [hlock]
         split <;> first | rfl | (rename_i h; cases h; done) | simp_all
       rw [hw]
-      exact XInv.busy _ k hk htoc hcount hdone hpool hreq hlock hq hin
+      exact XInv.busy _ k hk htoc hcount hdone hpool hreq hlock hq hin hact
+  | disconnect =>
+    simp only [XSys.step]
+    cases hi with
+    | aborted hact hdone hq =>
+      have : s.x.disconnect = s.x := by simp [ExtF.disconnect, hact]
+      rw [this]; exact XInv.aborted _ hact hdone hq
+    | idle k hk htoc hcount hdone hpool hreq hlock hq hact =>
+      by_cases hke : k = E.length
+      · have ha : s.x.active = false := by rw [hact]; simp [hke]
+        have : s.x.disconnect = s.x := by simp [ExtF.disconnect, ha]
+        rw [this]; exact XInv.idle _ k hk htoc hcount hdone hpool hreq hlock hq hact
+      · have ha : s.x.active = true := by rw [hact]; simp [hke]
+        refine XInv.aborted _ ?_ ?_ ?_
+        · simp [ExtF.disconnect, ha]
+        · simp [ExtF.disconnect, ha, hdone, hke]
+        · simp [ExtF.disconnect, ha]
+    | busy k hk htoc hcount hdone hpool hreq hlock hq hin hact =>
+      refine XInv.aborted _ ?_ ?_ ?_
+      · simp [ExtF.disconnect, hact]
+      · simp [ExtF.disconnect, hact, hdone]
+      · simp [ExtF.disconnect, hact]
   | reply i =>
     simp only [XSys.step]
     split
     · rename_i p hp
       have hpm : p ∈ s.pool := List.mem_of_getElem? hp
       cases hi with
-      | idle k hk htoc hcount hdone hpool hreq hlock hq =>
+      | aborted hact hdone hq =>
+        rw [xdeliver_noop' s 3 _ (xonPacket_inactive s.x 3 p hact)]
+        exact XInv.aborted _ hact hdone hq
+      | idle k hk htoc hcount hdone hpool hreq hlock hq hact =>
         obtain ⟨j, hj, hpj⟩ := hpool p hpm
         subst hpj
         have hjE : j ∈ E := List.mem_of_mem_take hj
         rw [xdeliver_noop' s 3 _ (xonPacket_stale s.x pers j (hE j hjE) (by rw [hreq]; simp))]
-        exact XInv.idle _ k hk htoc hcount hdone hpool hreq hlock hq
-      | busy k hk htoc hcount hdone hpool hreq hlock hq hin =>
+        exact XInv.idle _ k hk htoc hcount hdone hpool hreq hlock hq hact
+      | busy k hk htoc hcount hdone hpool hreq hlock hq hin hact =>
         obtain ⟨j, hj, hpj⟩ := hpool p hpm
         subst hpj
         have hjE : j ∈ E := List.mem_of_mem_take hj
@@ -312,7 +350,7 @@ theorem xstep_inv (s : XSys) (hi : XInv E toc0 pers s) (c : XChoice) : XInv E to
               rw [List.find?_eq_none] at hf
               have := hf e he
               simp [hei] at this
-          have hstep := xonPacket_awaited s.x pers E[k] (hE _ hjE) hreq e he
+          have hstep := xonPacket_awaited s.x pers E[k] (hE _ hjE) hreq hact e he
           have htoc' : (if pers E[k] then s.x.toc.markPersistent E[k] else s.x.toc) =
               toc0.mapElems (markIf (Pk E pers (k + 1))) := by
             cases hp' : pers E[k]
@@ -335,18 +373,18 @@ theorem xstep_inv (s : XSys) (hi : XInv E toc0 pers s) (c : XChoice) : XInv E to
           by_cases hlast : s.x.count - 1 = 0
           · have hke : k + 1 = E.length := by omega
             simp only [hlast, if_true]
-            refine XInv.idle _ (k + 1) (by omega) rfl (by simp; omega) (by simp [hdone, hke]) hpool rfl rfl ?_
+            refine XInv.idle _ (k + 1) (by omega) rfl (by simp; omega) (by simp [hdone, hke]) hpool rfl rfl ?_ (by simp [hke])
             show [] = E.drop (k + 1)
             rw [hke, List.drop_length]
           · have hke : k + 1 ≠ E.length := by omega
             simp only [hlast, if_false]
-            refine XInv.idle _ (k + 1) (by omega) rfl ?_ (by simp [hdone, hke]) hpool rfl rfl hq
+            refine XInv.idle _ (k + 1) (by omega) rfl ?_ (by simp [hdone, hke]) hpool rfl rfl hq (by simp [hke, hact])
             show s.x.count - 1 = _
             rw [hcount]; push_cast; omega
         · -- a stale answer (for a parameter answered before)
           have hne : s.x.reqParam ≠ some j := by rw [hreq]; simp; exact fun h => hje h.symm
           rw [xdeliver_noop' s 3 _ (xonPacket_stale s.x pers j (hE j hjE) hne)]
-          exact XInv.busy _ k hk htoc hcount hdone hpool hreq hlock hq hin
+          exact XInv.busy _ k hk htoc hcount hdone hpool hreq hlock hq hin hact
     · exact hi
 
 theorem xrun_inv (s : XSys) (hi : XInv E toc0 pers s) (cs : List XChoice) : XInv E toc0 pers (s.run pers cs) := by
@@ -359,10 +397,11 @@ theorem xrun_inv (s : XSys) (hi : XInv E toc0 pers s) (cs : List XChoice) : XInv
 def XSys.remaining (s : XSys) : Nat := 2 * s.x.count.toNat - (if s.x.locked then 1 else 0)
 
 omit hnd in
-theorem xprogress (s : XSys) (hi : XInv E toc0 pers s) (hd : s.x.done = 0) :
-    ∃ c, (s.step pers c).remaining < s.remaining := by
+theorem xprogress (s : XSys) (hi : XInv E toc0 pers s) (hd : s.x.done = 0) (ha : s.x.active = true) :
+    ∃ c, (s.step pers c).remaining < s.remaining ∧ ((s.step pers c).x.active = true ∨ (s.step pers c).x.done = 1) := by
   cases hi with
-  | idle k hk htoc hcount hdone hpool hreq hlock hq =>
+  | aborted hact _ _ => rw [hact] at ha; cases ha
+  | idle k hk htoc hcount hdone hpool hreq hlock hq hact =>
     have hlt : k < E.length := by
       by_cases hke : k = E.length
       · rw [hdone, if_pos hke] at hd; cases hd
@@ -376,9 +415,8 @@ theorem xprogress (s : XSys) (hi : XInv E toc0 pers s) (hd : s.x.done = 0) :
     simp only [XSys.step, hw, XSys.remaining, hlock, hcount]
     have : ((E.length : Int) - (k : Int)).toNat = E.length - k := by omega
     rw [this]
-    simp
-    omega
-  | busy k hk htoc hcount hdone hpool hreq hlock hq hin =>
+    refine ⟨by simp; omega, Or.inl ha⟩
+  | busy k hk htoc hcount hdone hpool hreq hlock hq hin hact =>
     obtain ⟨i, hi⟩ := List.mem_iff_getElem?.mp hin
     refine ⟨.reply i, ?_⟩
     have hjE : E[k] ∈ E := List.getElem_mem hk
@@ -397,7 +435,7 @@ theorem xprogress (s : XSys) (hi : XInv E toc0 pers s) (hd : s.x.done = 0) :
         rw [List.find?_eq_none] at hf
         have := hf e he
         simp [hei] at this
-    have hstep := xonPacket_awaited s.x pers E[k] (hE _ hjE) hreq e he
+    have hstep := xonPacket_awaited s.x pers E[k] (hE _ hjE) hreq hact e he
     simp only [XSys.step, hi]
     unfold XSys.deliver
     have hc1 : (s.x.count - 1).toNat = E.length - k - 1 := by rw [hcount]; omega
@@ -406,35 +444,44 @@ theorem xprogress (s : XSys) (hi : XInv E toc0 pers s) (hd : s.x.done = 0) :
     · rw [if_pos hlast] at hstep
       rw [hstep]
       simp only [XSys.remaining, hlock, hc1, hc0]
-      simp
-      omega
+      refine ⟨by simp; omega, Or.inr (by simp [hdone])⟩
     · rw [if_neg hlast] at hstep
       rw [hstep]
       simp only [XSys.remaining, hlock, hc1, hc0]
-      simp
-      omega
+      refine ⟨by simp; omega, Or.inl (by simpa using hact)⟩
 
-theorem xcompletes (n : Nat) (s : XSys) (hi : XInv E toc0 pers s) (hn : s.remaining ≤ n) :
+theorem xcompletes (n : Nat) (s : XSys) (hi : XInv E toc0 pers s) (hlive : s.x.active = true ∨ s.x.done = 1)
+    (hn : s.remaining ≤ n) :
     ∃ cs : List XChoice, cs.length ≤ n ∧ (s.run pers cs).x.done = 1 := by
-  have hdone_cases : s.x.done = 0 ∨ s.x.done = 1 := by
+  have hdone_of_active : s.x.active = true → s.x.done = 0 := by
+    intro ha
     cases hi with
-    | idle k _ _ _ hdone => rw [hdone]; split <;> simp
-    | busy k _ _ _ hdone => exact Or.inl hdone
+    | aborted hact _ _ => rw [hact] at ha; cases ha
+    | idle k _ _ _ hdone _ _ _ _ hact =>
+      rw [hact] at ha
+      have : k ≠ E.length := by simpa using ha
+      rw [hdone, if_neg this]
+    | busy k _ _ _ hdone => exact hdone
   induction n generalizing s with
   | zero =>
-    rcases hdone_cases with h0 | h1
-    · obtain ⟨c, hc⟩ := xprogress E toc0 pers hE hmem s hi h0
+    rcases hlive with ha | h1
+    · obtain ⟨c, hc, _⟩ := xprogress E toc0 pers hE hmem s hi (hdone_of_active ha) ha
       omega
     · exact ⟨[], Nat.le_refl _, h1⟩
   | succ n ih =>
-    rcases hdone_cases with h0 | h1
-    · obtain ⟨c, hc⟩ := xprogress E toc0 pers hE hmem s hi h0
+    rcases hlive with ha | h1
+    · obtain ⟨c, hc, hlive'⟩ := xprogress E toc0 pers hE hmem s hi (hdone_of_active ha) ha
       have hi' := xstep_inv E toc0 pers hnd hE hmem s hi c
-      have hd' : (s.step pers c).x.done = 0 ∨ (s.step pers c).x.done = 1 := by
+      have hdoa' : (s.step pers c).x.active = true → (s.step pers c).x.done = 0 := by
+        intro ha'
         cases hi' with
-        | idle k _ _ _ hdone => rw [hdone]; split <;> simp
-        | busy k _ _ _ hdone => exact Or.inl hdone
-      obtain ⟨cs, hlen, hfin⟩ := ih (s.step pers c) hi' (by omega) hd'
+        | aborted hact _ _ => rw [hact] at ha'; cases ha'
+        | idle k _ _ _ hdone _ _ _ _ hact =>
+          rw [hact] at ha'
+          have : k ≠ E.length := by simpa using ha'
+          rw [hdone, if_neg this]
+        | busy k _ _ _ hdone => exact hdone
+      obtain ⟨cs, hlen, hfin⟩ := ih (s.step pers c) hi' hlive' (by omega) hdoa'
       exact ⟨c :: cs, by simp; omega, hfin⟩
     · exact ⟨[], Nat.zero_le _, h1⟩
 
